@@ -54,7 +54,7 @@ var poolQtys = []Val{qv("1", "mg"), qv("1.0", "mg"), qv("2", "mg"), qv("1", "kg"
 
 var poolFHIR = []Val{
 	fv("integer", "0"), fv("integer", "1"), fv("integer", "-2147483648"), fv("integer", "2147483647"),
-	fv("positiveInt", "1"), fv("positiveInt", "2147483647"), fv("positiveInt", "3000000000"), fv("unsignedInt", "0"), fv("unsignedInt", "4294967295"),
+	fv("positiveInt", "1"), fv("positiveInt", "2147483647"), fv("positiveInt", "3000000000"), fv("unsignedInt", "0"), fv("unsignedInt", "4294967295"), fv("unsignedInt", "2147483647"), fv("unsignedInt", "2147483646"), fv("unsignedInt", "2147483648"), fv("positiveInt", "2147483646"),
 	fv("decimal", "1.0"), fv("decimal", "1.50"), fv("decimal", "-0.5"), fv("decimal", "123456789012345678901234567890.5"),
 	fv("string", ""), fv("string", "abc"), fv("string", "héllo"), fv("string", "1"), fv("string", "true"), fv("code", "official"), fv("code", "abc"), fv("id", "abc"), fv("markdown", "abc"),
 	fv("uri", "http://example.org/a"), fv("url", "http://example.org/a"), fv("canonical", "http://example.org/a|1.0"), fv("uuid", "urn:uuid:123e4567-e89b-12d3-a456-426614174000"), fv("oid", "urn:oid:1.2.3"),
